@@ -71,8 +71,12 @@ def prepare(cfg):
         shape = TEMPLATES[cfg['template']]
         text = ''.join('${v}' if isinstance(p, int) else ('${' + p[1] + '}' if isinstance(p, list) else p)
                        for p in shape)
-        STATE['tpl'] = PageTextTemplate(text)
         STATE['shape'] = shape
+        try:
+            STATE['tpl'] = PageTextTemplate(text)
+        except Exception as exc:      # a valid text template must compile: counted as failure of every input
+            STATE['tpl'] = None
+            STATE['compile_error'] = repr(exc)[:300]
 
 
 def _res(ok):
@@ -122,6 +126,8 @@ def render(c0: int, c1: int, c2: int, c3: int) -> bool:
         v = v + chr((c0, c1, c2, c3)[i])
     kind = CFG.get('kind', 'str')
     val = v if kind == 'str' else (Obj(v) if kind == 'object' else None)
+    if STATE.get('tpl') is None:
+        return _res(False)
     got = STATE['tpl'].render(v=val)
     want = ''
     for p in STATE['shape']:
@@ -137,6 +143,8 @@ def render(c0: int, c1: int, c2: int, c3: int) -> bool:
 def explain(cfg, *args):
     if cfg.get('template'):
         v = ''.join(chr(c) for c in args[:cfg.get('k', 2)])
+        if STATE.get('tpl') is None:
+            return {'compile_error': STATE.get('compile_error')}
         return {'value': v, 'rendered': STATE['tpl'].render(v=v)}
     return {'text': build(cfg['shape'], args)}
 
